@@ -164,7 +164,7 @@ def run_case(env, scn, op, spec, inv0, cmds, sim=False, no_lock=False):
     inv0 = A.inventory(scn.base)          # inode numbers differ between rebuilds: take the inventory of THIS build
     r = A.run_shim(env["fclones"], env["shim"], A.cli_args(op, scn, no_lock), scn.report, scn.base,
                    fail=spec.get("fail"), fail2=spec.get("fail2"), kill=spec.get("kill"), sim_ficlone=sim,
-                   cwd=getattr(scn, "cwd", None), env_extra=scn.env_extra())
+                   cwd=getattr(scn, "cwd", None), env_extra=scn.env_extra(), plant=spec.get("plant"))
     c = Case()
     c.scn, c.op, c.spec, c.inv0, c.cmds, c.res, c.sim, c.sl = scn, op, spec, inv0, cmds, r, sim, not no_lock
     c.inv1 = A.inventory(scn.base)
@@ -330,6 +330,17 @@ def explore(env, make_scn, op, tier_quick, rng, errnos, shard, nshards, light=Fa
             for d in range(1, span + 1):
                 out.append(run_case(env, scn, op, {"fail": (k, rng.choice(errnos)), "fail2": (k + d, rng.choice(errnos))},
                                     inv0, cmds, sim=sim))
+    if op in ("link", "softlink") and not light and shard == 0:
+        # ANOTHER PROCESS re-creates the victim's path between rename(path, tmp) and the link / symlink call (played by the shim):
+        # the call fails with EEXIST and the roll-back must put the original back at its path (oracle only: a foreign writer is
+        # outside the model)
+        c0 = run_case(env, scn, op, {}, inv0, cmds)
+        for x in c0.calls:
+            if x["kind"] in ("link", "symlink", "hardlink", "softlink") and x["ks"]:
+                for cm in cmds:
+                    if A.pct(cm["a"]) in x["text"].split(",")[-1]:
+                        out.append(run_case(env, scn, op, {"plant": (x["ks"][0], cm["a"])}, inv0, cmds))
+                        break
     if op == "move" and not light:
         # the copy branch: every rename forced to fail with EXDEV (as across file systems), then a second failure /
         # a kill at every call of the fallback (mkdir check, open+truncate, fchmod, copy_file_range x2, unlink)
@@ -433,8 +444,11 @@ def run(ctx):
             def make_occ(suffix, seed=seed, op=op):
                 scn = gen_scenario(core.SplitMix64(seed), "occ_%s%s" % (op, suffix), ctx.scratch, small=True)
                 rels = sorted(rel for rel, _ in scn.groups[0]["members"])
-                for rel in rels[1:]:
-                    scn.extra.append(("file", os.path.join(scn.move_dir, os.path.join(scn.root, rel).lstrip("/")), b"occupant-of-" + rel.encode()))
+                for k, rel in enumerate(rels[1:]):
+                    # the occupant is an unrelated file; every other one has exactly the LENGTH of the victim (other bytes): it is
+                    # not "the copy of an interrupted move"
+                    occ = b"#" * len(scn.groups[0]["content"]) if k % 2 == 0 else b"occupant-of-" + rel.encode()
+                    scn.extra.append(("file", os.path.join(scn.move_dir, os.path.join(scn.root, rel).lstrip("/")), occ))
                 scn.fake_mount = (op == "move_copy")
                 scn.occupied = True
                 return scn
@@ -451,7 +465,7 @@ def run(ctx):
     for c, o in zip(cases, outs):
         ctx.count()
         spec = c.spec
-        kind = "none" if not spec else ("kill_" + spec["kill"][1] if "kill" in spec else ("pair" if "fail2" in spec else spec["fail"][1]))
+        kind = "none" if not spec else ("intruder" if "plant" in spec else "kill_" + spec["kill"][1] if "kill" in spec else ("pair" if "fail2" in spec else spec["fail"][1]))
         if spec and "kill" in spec and "fail" in spec:
             kind = "rename_EXDEV+" + kind
         elif spec and "fail2" in spec and spec["fail"][1] == "EXDEV" and c.op == "move" and any(x["kind"] == "copy" for x in c.calls):
@@ -468,6 +482,11 @@ def run(ctx):
                 ctx.bump("ENAMETOOLONG_on_the_temp_name(environment_fault)", c.op)
         ctx.bump("commands_in_script", len(c.cmds))
         hit = None
+        if spec and "plant" in spec:
+            ctx.bump("foreign_process_recreates_the_victim_path_before_the_link", c.op)
+            for kind_, text in property_oracle(c):
+                ctx.violation({"kind": kind_, "op": c.op}, "C05 violated by the implementation: " + text, describe(c), found_input=True)
+            continue
         if spec:
             k = (spec.get("kill") or spec.get("fail2") or spec.get("fail"))[0]
             for x in c.calls:
